@@ -47,6 +47,11 @@ def swarm(prop, r, tier):
     cfg["collapse_inputs"] = prop in ("C12", "C16", "C14", "C15") and R.chance(0.06)
     # the same numbers spelled as ints / numpy floats
     cfg["arg_forms"] = R.chance(0.06)
+    # scale: hundreds of siblings (node numbers above 256) / long daisy chains
+    cfg["wide"] = prop in ("C01", "C02", "C04", "C05", "C07", "C09", "C16", "C12") and R.chance(0.03)
+    cfg["chain"] = 0
+    if prop in ("C08", "C03", "C18", "C01", "C06") and R.chance(0.03):
+        cfg["chain"] = R.pick([30, 60, 60, 270] if prop == "C08" else ([60] if prop == "C18" else [30, 60]))
     # nA..uA systems (everything scaled down): same laws, nanowatt losses
     cfg["micro"] = prop not in ("C03", "C17") and R.chance(0.07)
     # a random subset of kinds is disabled (swarm)
@@ -103,7 +108,8 @@ def swarm(prop, r, tier):
             cfg["names"] = "dot"  # names the dot language treats specially (separate class)
     for f_ in os.environ.get("SIM_FORCE", "").split(","):
         if "=" in f_:
-            cfg[f_.split("=")[0]] = f_.split("=")[1]
+            v_ = f_.split("=")[1]
+            cfg[f_.split("=")[0]] = int(v_) if v_.isdigit() else v_
         elif f_:
             cfg[f_] = True  # development aid: force a run class on (never set by the registered commands)
     return cfg
@@ -131,6 +137,21 @@ def drive(sess, rnd, cfg, record):
     if m is None:
         return
     target = R.randint(3, cfg["max_comps"])
+    if cfg.get("wide") or cfg.get("chain"):
+        op = g.op_bulk_wide(m, R.randint(257, 300)) if cfg.get("wide") else g.op_bulk_chain(m, cfg["chain"])
+        emit(op)
+        yield op
+        target += len(sess.model.order)
+        cfg["max_comps"] += len(sess.model.order)
+        if cfg.get("chain", 0) >= 200:
+            # a chain this long needs more than a thousand sweeps: defaults only
+            o = {"op": "observe", "ta": 25.0, "sh": 1, "kw": {}}
+            emit(o)
+            yield o
+            o = dict(o, final=True)
+            emit(o)
+            yield o
+            return
     want_mux = R.chance(cfg["mux"])
     want_multi = R.chance(cfg["multi_source"])
     want_phases = R.chance(cfg["phases"])
@@ -326,7 +347,7 @@ def drive(sess, rnd, cfg, record):
 
 def make_observe(g, m, cfg):
     R = g.r
-    op = {"op": "observe", "ta": R.pick([25.0, 25.0, -40.0, 0.0, 60.0, 85.0]), "sh": R.randint(1, 10**6), "kw": dict(OBS_KW)}
+    op = g.flagform({"op": "observe", "ta": R.pick([25.0, 25.0, -40.0, 0.0, 60.0, 85.0]), "sh": R.randint(1, 10**6), "kw": dict(OBS_KW)})
     if cfg["focus"] == "C12" and R.chance(0.3):
         import sysloss
 
@@ -339,6 +360,8 @@ def make_observe(g, m, cfg):
         older = ["%d.%d.%d" % (ma, mi, pa), "1.0.0", "%d.%d.%d" % (ma, max(mi - 1, 0), 99) if mi > 0 else "0.9.0", "%d.%d.%d" % (max(ma - 1, 0), 99, 0) if ma > 0 else "0.1.0"]
         if R.chance(0.5):
             op["skew"] = {"dir": "newer", "version": R.pick(newer)}
+            if R.chance(0.4):
+                op["skew"]["garble"] = R.pick(["type", "params", "section"])
         else:
             op["skew"] = {"dir": "older", "version": R.pick(older)}
     if cfg["focus"] in ("C01", "C02") and R.chance(0.15):
